@@ -98,7 +98,7 @@ def write_search_cases(path, seed, tier, light=False):
                     "sources": sorted(rng.sample(range(n), min(n, 3)))})
     # larger graphs with many ties in hop distance and vertex indices beyond 32 / 64: stars and
     # wheels seen from the hub and from a leaf, complete graphs, sparse random graphs
-    for n in ([18, 40] if tier == "quick" else [18, 33, 40, 66, 100]):
+    for n in ([18, 40, 70, 270] if tier == "quick" else [18, 33, 40, 66, 100, 130, 270, 520]):
         star = {(0, v) for v in range(1, n)}
         out.append({"k": "search", "dir": False, "g": enc_graph(n, star, False), "paths": n <= 40, "sources": [0, 1, n - 1]})
         out.append({"k": "search", "dir": True, "g": enc_graph(n, {(n - 1, v) for v in range(n - 1)}, True), "paths": n <= 40,
@@ -112,7 +112,7 @@ def write_search_cases(path, seed, tier, light=False):
         w = {x: rng.randint(0, 9) for x in e}
         out.append({"k": "dijkstra", "dir": False, "g": enc_graph(n, e, False, w), "sources": [0, n - 1]})
         chain = {(v, v + 1) for v in range(n - 1)}
-        out.append({"k": "search", "dir": True, "g": enc_graph(n, chain, True), "paths": True, "sources": [0, n // 2]})
+        out.append({"k": "search", "dir": True, "g": enc_graph(n, chain, True), "paths": n <= 70, "sources": [0, n // 2]})
     for n in ([17] if tier == "quick" else [17, 24]):
         comp = {(i, j) for i in range(n) for j in range(n) if i < j}
         out.append({"k": "search", "dir": False, "g": enc_graph(n, comp, False), "paths": True, "sources": [0, n - 1]})
